@@ -618,7 +618,7 @@ func pickFloat(r *Rng, xs []float64) float64 { return xs[r.Intn(len(xs))] }
 
 func genSoil(sc *Scenario, r *Rng, p Profile) {
 	s := &sc.Soil
-	s.ID = fmt.Sprintf("%03d", r.Range(1, 999))
+	s.ID = fmt.Sprintf("%03d", r.Range(1, 990)) // 998 is the soil of the decoy field in the generated files
 	s.CSV = r.Bool(0.7)
 	nLayers := r.Range(maxi(p.MinLayers, 1), 20)
 	if r.Bool(0.5) {
